@@ -106,7 +106,7 @@ def run_job(job):
         res["reason"] = "no result in cbmc output: " + logtxt[-2000:]
         return res
     canary_seen = False
-    n_fail = n_unknown = 0
+    n_fail = n_unknown = n_unwind = 0
     want_loops = job["loops"]
     loop_obl = 0
     for r in results:
@@ -147,6 +147,11 @@ def run_job(job):
             if mm:
                 kind = "lemma"
                 label = mm.group(1)
+        if ".unwind." in prop or "unwinding assertion" in desc:
+            # a failed unwinding assertion means "bound too small", never a property violation
+            if st == "FAILURE":
+                n_unwind += 1
+            continue
         ob = dict(id=prop, kind=kind, label=label, status=st, desc=desc, line=line, fn=fn)
         if st == "FAILURE":
             n_fail += 1
@@ -182,6 +187,9 @@ def run_job(job):
         return res
     if n_fail:
         res["status"] = "refuted"
+    elif n_unwind:
+        res["status"] = "error"
+        res["reason"] = "unwinding assertion failed (%d): a loop without loop contract exceeds the unwind bound for the inputs the harness allows -- inconclusive, not a violation" % n_unwind
     elif n_unknown:
         res["status"] = "unknown"
         res["reason"] = "%d obligations without definite status" % n_unknown
